@@ -215,7 +215,12 @@ func (gb GenBank) String() string {
 	b.WriteString("DEFINITION  " + definition + ".\n")
 	b.WriteString("ACCESSION   " + gb.Fields.Accession)
 	if seg, ok := gb.Fields.Region.(gts.Segment); ok {
-		loc := gts.Range(gts.Unpack(seg))
+		head, tail := gts.Unpack(seg)
+		// An empty slice is the site in front of its position, not a range.
+		var loc gts.Location = gts.Between(head)
+		if head < tail {
+			loc = gts.Range(head, tail)
+		}
 		b.WriteString(fmt.Sprintf(" REGION: %s", loc))
 	}
 	b.WriteByte('\n')
